@@ -326,7 +326,9 @@ def run_model(cases):
         term, N = A.coq_program(c["program"])
         exprs.append("c15_run (%s)" % term)
         names.append(N)
-    vals = lib.coq_eval(PROP, PRELUDE, exprs, per_shard=60)
+    # a run against a scratch worktree (VERIF_REPO) or a replay must not overwrite the case files of a run on /repo going on at the same time
+    tag = PROP + ("" if lib.REPO == "/repo" else "_" + __import__("hashlib").sha1(lib.REPO.encode()).hexdigest()[:8]) + ("_r%d" % os.getpid() if len(cases) == 1 else "")
+    vals = lib.coq_eval(tag, PRELUDE, exprs, per_shard=60)
     out = []
     for c, N, v in zip(cases, names, vals):
         per_kind, offs = v
